@@ -239,14 +239,15 @@ func main() {
 			g := aspgen.NewGen(c.Rng.Fork())
 			add(&item{name: fmt.Sprintf("bad:%d", i), stream: "malformed", build: g.Malformed()})
 		}
-		for i := 0; i < nPure; i++ {
-			add(&item{name: fmt.Sprintf("pure:%d", i), stream: "pure", build: PureProgram(c.Rng.Fork())})
-		}
 		for i := 0; i < nDefs; i++ {
 			// the same kind of program, but interpreted as a subincluded file (optimise + optimiseExpressions, frozen
 			// globals) and imported by an otherwise empty BUILD file: the values must still be CPython's
 			g := aspgen.NewGen(c.Rng.Fork())
 			add(&item{name: fmt.Sprintf("defs:%d", i), stream: "defs", defs: g.Program(), build: aspgen.Prog{aspgen.CallStmt("subinclude", aspgen.StrE("//defs:d"))}})
+		}
+
+		for i := 0; i < nPure; i++ {
+			add(&item{name: fmt.Sprintf("pure:%d", i), stream: "pure", build: PureProgram(c.Rng.Fork())})
 		}
 
 		// ---- run the real interpreter, validate the printer
@@ -372,7 +373,7 @@ func main() {
 				}
 				in := map[string]any{"src": it.src, "asp": it.asp.Final, "python": it.py}
 				if ok {
-					c.Fail(it.tpl.Class, fmt.Sprintf("%s: asp computes %v where CPython gives %v", it.tpl.Name, it.tpl.Asp, describePy(it.py, it.tpl.Asp)), in)
+					c.Fail(witnessClass(it.tpl), fmt.Sprintf("%s: asp computes %v where CPython gives %v", it.tpl.Name, it.tpl.Asp, describePy(it.py, it.tpl.Asp)), in)
 				} else {
 					c.Fail("unexplained-asp-python-difference", fmt.Sprintf("%s: asp and CPython differ on %v in a way the known class %s does not predict", it.tpl.Name, bad, it.tpl.Class), in)
 				}
@@ -512,6 +513,17 @@ func main() {
 			}
 		}
 	})
+}
+
+// witnessClass: the class a template reports when asp differs from CPython on it exactly as recorded. The witnesses of
+// differences that /repo has since repaired (7aeabfa: list + list always builds a new list) stay as regression streams
+// under a class of their own, so that they are not absorbed by a neighbouring class that is still a known finding.
+func witnessClass(t *aspgen.Template) string {
+	switch t.Name {
+	case "add-empty-aliases":
+		return "list-add-empty-returns-operand" // was filed under slice-shares-array, which now means real slices only
+	}
+	return t.Class
 }
 
 func hasOctal(p aspgen.Prog) bool { return strings.Contains(aspgen.Source(p), "0o") }
